@@ -145,7 +145,8 @@ def replay(params, model, notes, workdir, seed):
         mp = ap[len(state["root"]):] if ap.startswith(state["root"]) else ap
         for k, v in model.items():
             if k.startswith("permB:%s:" % mp):
-                perms = list(itertools.permutations(range(len(names))))
+                from symx.afs import listing_orders
+                perms = listing_orders(len(names))
                 if int(v) < len(perms):
                     return [names[i] for i in perms[int(v)]]
         return names[::-1]
